@@ -58,6 +58,18 @@ func (o *Events) OnVariable(f func(walker *Walker, variable *ast.VariableDefinit
 }
 
 func Walk(schema *ast.Schema, document *ast.QueryDocument, observers *Events) {
+	// Link the whole document to the schema before any rule observes it. Rules
+	// that look into fragment definitions (overlapping fields) read the links of
+	// nodes the walk has not reached yet when fragments spread each other in a
+	// cycle, so without this a first validation reported fewer errors than a
+	// second validation of the same document.
+	linker := Walker{
+		Observers: &Events{},
+		Schema:    schema,
+		Document:  document,
+	}
+	linker.walk()
+
 	w := Walker{
 		Observers: observers,
 		Schema:    schema,
